@@ -126,60 +126,138 @@ func runCrypto(c *Ctx, r *Reporter) {
 			}
 		}
 	}
-	// 3. slices of the envelope behind length checks
-	var envelope *ssa.Parameter
+	// 3. slices of the envelope behind length checks — in hybridDecrypt and in a helper it hands the envelope to
+	var decEnvelope *ssa.Parameter
 	for _, prm := range dec.Params {
 		if _, ok := prm.Type().Underlying().(*types.Slice); ok {
-			envelope = prm
+			decEnvelope = prm
+		}
+	}
+	type envSite struct {
+		fn  *ssa.Function
+		env *ssa.Parameter
+	}
+	envSites := []envSite{{dec, decEnvelope}}
+	for _, h := range regionFns(dec, 2, map[string]bool{"hybridEncrypt": true}) {
+		if h == dec {
+			continue
+		}
+		for _, ci := range callsTo(dec, h) {
+			for ai, a := range ci.Common().Args {
+				if a == ssa.Value(decEnvelope) && ai < len(h.Params) {
+					envSites = append(envSites, envSite{h, h.Params[ai]})
+				}
+			}
 		}
 	}
 	k := 0
-	for _, b := range dec.Blocks {
-		for _, ins := range b.Instrs {
-			sl, ok := ins.(*ssa.Slice)
-			if !ok || sl.X != ssa.Value(envelope) {
-				continue
-			}
-			k++
-			bound := sl.High
-			if bound == nil {
-				bound = sl.Low
-			}
-			okB := false
-			for d := sl.Block(); d != nil; d = d.Idom() {
-				idom := d.Idom()
-				if idom == nil || len(idom.Instrs) == 0 {
-					continue
-				}
-				ifi, ok := idom.Instrs[len(idom.Instrs)-1].(*ssa.If)
-				if !ok {
-					continue
-				}
-				bo, ok := ifi.Cond.(*ssa.BinOp)
-				if !ok || bo.Op != token.LSS {
-					continue
-				}
-				lc, ok := bo.X.(*ssa.Call)
-				if !ok {
-					continue
-				}
-				if bi, ok := lc.Call.Value.(*ssa.Builtin); !ok || bi.Name() != "len" || lc.Call.Args[0] != ssa.Value(envelope) {
-					continue
-				}
-				if !edgeDominates(idom, 1, sl.Block()) {
-					continue
-				}
-				// len >= bo.Y ; need bo.Y >= bound
-				if bound == nil || sameValueExpr(bo.Y, bound, 5) {
-					okB = true
-				}
-				if kb, ok := bound.(*ssa.Const); ok {
-					if ky, ok := bo.Y.(*ssa.Const); ok && ky.Int64() >= kb.Int64() {
-						okB = true
+	for _, es := range envSites {
+		envelope := es.env
+		var bounds []ssa.Value // the bounds the envelope is sliced at in this function
+		for _, b := range es.fn.Blocks {
+			for _, ins := range b.Instrs {
+				if sl, ok := ins.(*ssa.Slice); ok && sl.X == ssa.Value(envelope) {
+					for _, bv := range []ssa.Value{sl.Low, sl.High} {
+						if bv != nil {
+							bounds = append(bounds, bv)
+						}
 					}
 				}
 			}
-			r.Check(okB, fmt.Sprintf("%s#slice[%d]", q(dec), k), p.Rel(instrPos(sl)), "the envelope is sliced only behind a length check covering the bound", "the sealed value is sliced without a dominating length check: a truncated value crashes instead of being rejected")
+		}
+		for _, b := range es.fn.Blocks {
+			for _, ins := range b.Instrs {
+				sl, ok := ins.(*ssa.Slice)
+				if !ok || sl.X != ssa.Value(envelope) {
+					continue
+				}
+				k++
+				bound := sl.High
+				if bound == nil {
+					bound = sl.Low
+				}
+				okB := false
+				for _, f := range impliedConds(sl.Block()) {
+					bo, ok := f.Cond.(*ssa.BinOp)
+					if !ok || bo.Op != token.LSS || f.Truth {
+						continue
+					}
+					lc, ok := bo.X.(*ssa.Call)
+					if !ok {
+						continue
+					}
+					if bi, ok := lc.Call.Value.(*ssa.Builtin); !ok || bi.Name() != "len" || lc.Call.Args[0] != ssa.Value(envelope) {
+						continue
+					}
+					// len >= bo.Y ; need bo.Y >= bound
+					if bound == nil || sameValueExpr(bo.Y, bound, 5) {
+						okB = true
+					}
+					if kb, ok := bound.(*ssa.Const); ok {
+						if ky, ok := bo.Y.(*ssa.Const); ok && ky.Int64() >= kb.Int64() {
+							okB = true
+						}
+					}
+				}
+				r.Check(okB, fmt.Sprintf("%s#slice[%d]", q(es.fn), k), p.Rel(instrPos(sl)), "the envelope is sliced only behind a length check covering the bound", "the sealed value is sliced without a dominating length check: a truncated value crashes instead of being rejected")
+			}
+		}
+		// 3b. a sealed value is rejected for its length only where it is too short to be taken apart: every test of
+		// len(envelope) that leads to an error is `len < bound` with a bound the envelope is sliced at (or a smaller
+		// constant). A stricter test (room for more than is sliced, `<=`) turns away values that Seal produces — the
+		// sealing of the empty text is header, RSA part and the bare authentication tag.
+		nt := 0
+		for _, b := range es.fn.Blocks {
+			if len(b.Instrs) == 0 {
+				continue
+			}
+			ifi, ok := b.Instrs[len(b.Instrs)-1].(*ssa.If)
+			if !ok {
+				continue
+			}
+			bo, ok := ifi.Cond.(*ssa.BinOp)
+			if !ok {
+				continue
+			}
+			isLenEnv := func(v ssa.Value) bool {
+				lc, ok := v.(*ssa.Call)
+				if !ok {
+					return false
+				}
+				bi, ok := lc.Call.Value.(*ssa.Builtin)
+				return ok && bi.Name() == "len" && lc.Call.Args[0] == ssa.Value(envelope)
+			}
+			var bound ssa.Value
+			strict, rejectEdge := false, 0
+			switch {
+			case isLenEnv(bo.X) && (bo.Op == token.LSS || bo.Op == token.LEQ):
+				bound, strict = bo.Y, bo.Op == token.LSS
+			case isLenEnv(bo.Y) && (bo.Op == token.GTR || bo.Op == token.GEQ):
+				bound, strict = bo.X, bo.Op == token.GTR
+			case isLenEnv(bo.X) && (bo.Op == token.GEQ || bo.Op == token.GTR):
+				bound, strict, rejectEdge = bo.Y, bo.Op == token.GEQ, 1
+			default:
+				continue
+			}
+			if !onlyErrorReturns(b.Succs[rejectEdge], map[*ssa.BasicBlock]bool{}) {
+				continue
+			}
+			nt++
+			okT := false
+			if strict {
+				for _, bv := range bounds {
+					if sameValueExpr(bound, bv, 5) {
+						okT = true
+					}
+					if kb, ok := bound.(*ssa.Const); ok {
+						if kv, ok := bv.(*ssa.Const); ok && kb.Int64() <= kv.Int64() {
+							okT = true
+						}
+					}
+				}
+			}
+			r.Check(okT, fmt.Sprintf("%s#too-short-test[%d]", q(es.fn), nt), p.Rel(instrPos(ifi)), "the value is rejected as too short only below a bound it is sliced at",
+				"a sealed value is rejected for its length by a test that is not `len < bound` with a bound the value is sliced at: values that Seal produces (the sealing of the empty text ends with the bare 16-byte tag) are then reported as cut off")
 		}
 	}
 	// 4. sibling agreement
